@@ -67,7 +67,7 @@ func apGrammarRule(c *core.Ctx, r *core.Report, rule, pkgRel string) {
 	}
 	got := map[byte]bool{}
 	var where string
-	for _, ii := range core.InlinedInstrs(c, fn, 2, func(ins ssa.Instruction) bool {
+	for _, ii := range core.InlinedInstrs(c, fn, c.Depth(2), func(ins ssa.Instruction) bool {
 		switch x := ins.(type) {
 		case *ssa.BinOp:
 			return x.Op == token.EQL || x.Op == token.NEQ
